@@ -113,6 +113,14 @@ def modelObs (chk : Constraint → Bytes → Bool) (cfg : Config) (use : Bool) (
         vals := r.params.map (paramsLookup cfg r.params vals),
         extra := (extraKeys r.params).map (paramsGet cfg r.params vals) }
 
+/-- The model of a HISTORY: several requests served one after the other by the same app. The model
+    is history-free — request i is answered as if it were the only one; that the implementation
+    keeps no state from one request to the next (pooled ctx, reused path buffers, anything cached on
+    the route or its constraints) is the hypothesis the history cases of the harness test. -/
+def historyObs (chk : Constraint → Bytes → Bool) (cfg : Config) (use : Bool) (pattern : Bytes)
+    (reqPaths : List Bytes) : List Obs :=
+  reqPaths.map (modelObs chk cfg use pattern)
+
 /-- "the values reported by Params": the documented lookup — the bare keys `*` / `+` mean the first
     wildcard / plus parameter (`*1` / `+1`); a key selects the first declared name equal to it,
     ignoring ASCII letter case unless CaseSensitive; an unknown key gives "". -/
